@@ -3,7 +3,19 @@ from abc import ABC, abstractmethod
 from math import fabs
 
 
-COMPARISON_TOLERANCE = 1e-12
+COMPARISON_TOLERANCE = 1e-14
+MINIMUM_COMPARISON_TOLERANCE = 1e-300
+MAXIMUM_COMPARISON_TOLERANCE = 1e300
+
+
+def _comparison_tolerance(value_1: float | int, value_2: float | int) -> float:
+    return min(
+        max(
+            MINIMUM_COMPARISON_TOLERANCE,
+            COMPARISON_TOLERANCE*max(fabs(value_1), fabs(value_2))
+        ),
+        MAXIMUM_COMPARISON_TOLERANCE
+    )
 
 
 class UnitBase(ABC):
@@ -119,9 +131,10 @@ class UnitBase(ABC):
         if self.unit == other.unit:
             return self.value == other.value
         else:
-            return fabs(
-                self.value - other.to(self.unit).value
-            ) < COMPARISON_TOLERANCE
+            other_value = other.to(self.unit).value
+            return fabs(self.value - other_value) < _comparison_tolerance(
+                self.value, other_value
+            )
 
     def __ne__(self, other: UnitBase) -> None:
         if not isinstance(other, self.__class__) and \
@@ -134,9 +147,10 @@ class UnitBase(ABC):
         if self.unit == other.unit:
             return self.value != other.value
         else:
-            return fabs(
-                self.value - other.to(self.unit).value
-            ) > COMPARISON_TOLERANCE
+            other_value = other.to(self.unit).value
+            return fabs(self.value - other_value) > _comparison_tolerance(
+                self.value, other_value
+            )
 
     def __gt__(self, other: UnitBase) -> None:
         if not isinstance(other, self.__class__) and \
@@ -149,9 +163,10 @@ class UnitBase(ABC):
         if self.unit == other.unit:
             return self.value > other.value
         else:
-            return self.value - other.to(
-                self.unit
-            ).value > COMPARISON_TOLERANCE
+            other_value = other.to(self.unit).value
+            return self.value - other_value > _comparison_tolerance(
+                self.value, other_value
+            )
 
     def __ge__(self, other: UnitBase) -> None:
         if not isinstance(other, self.__class__) and \
@@ -164,9 +179,10 @@ class UnitBase(ABC):
         if self.unit == other.unit:
             return self.value >= other.value
         else:
-            return self.value - other.to(
-                self.unit
-            ).value >= -COMPARISON_TOLERANCE
+            other_value = other.to(self.unit).value
+            return self.value - other_value >= -_comparison_tolerance(
+                self.value, other_value
+            )
 
     def __lt__(self, other: UnitBase) -> None:
         if not isinstance(other, self.__class__) and \
@@ -179,9 +195,10 @@ class UnitBase(ABC):
         if self.unit == other.unit:
             return self.value < other.value
         else:
-            return self.value - other.to(
-                self.unit
-            ).value < -COMPARISON_TOLERANCE
+            other_value = other.to(self.unit).value
+            return self.value - other_value < -_comparison_tolerance(
+                self.value, other_value
+            )
 
     def __le__(self, other: UnitBase) -> None:
         if not isinstance(other, self.__class__) and \
@@ -194,9 +211,10 @@ class UnitBase(ABC):
         if self.unit == other.unit:
             return self.value <= other.value
         else:
-            return self.value - other.to(
-                self.unit
-            ).value <= COMPARISON_TOLERANCE
+            other_value = other.to(self.unit).value
+            return self.value - other_value <= _comparison_tolerance(
+                self.value, other_value
+            )
 
     @property
     @abstractmethod
